@@ -228,7 +228,6 @@ def aggr_cases(ctx, queries, real):
 
 def classify(g, filt, params, rows):
     import c01_harness as H
-    if g[0] == 'agg' and g[1] == 'sum' and L.ty_of(g[3]) == 'bool': return 'sum-of-booleans-is-returned-as-bool'
     for e, mode in ((filt, 'filter'), (g[3] if g[0] == 'agg' else None, 'project')):
         if e is None: continue
         for row in rows:
